@@ -550,6 +550,7 @@ func cmdCheck(args []string) int {
 		cfg.QueryTimeout = 120 * time.Second
 	}
 	os.Setenv("VX_TIER", *tier)
+	os.Setenv("VX_PROP", *id)
 	var reports []*harnessReport
 	var inconclusive []string
 	loadedPkgs := map[string]*loaded{}
